@@ -22,7 +22,7 @@ META["text"] = (
     "whatever the evaluations do to mjData (keeping array sizes): no state-API error and every component of the restore signature ends with its initial contents (proved from C26_set_get); C25_restore_spec_resolves / C25_fd_restores_mjdata: on the state table regenerated from the working tree, for every model and both restore signatures of mjd_stepFD (mjSTATE_FULLPHYSICS|mjSTATE_CTRL with and without mjSTATE_WARMSTART; the numeric values are compared with the header on every run) the fields time, qpos, qvel, act, ctrl, plugin_state (and qacc_warmstart) end with their initial contents; "
     "(C25_fd_restores_inverse_partial) the save-entry / nudge / inverse / restore-entry skeleton of mjd_inverseFD leaves qpos, qvel, qacc unchanged PROVIDED the inverse-dynamics call does not write those fields (premise). "
     "NOT proved (oracle only, on implementation output): the numerical agreement itself. qDeriv of mjd_smooth_vel (dense-ified) is compared with own centred finite differences of qfrc_actuator + qfrc_passive - qfrc_bias w.r.t. qvel (1e-5 scaled) on mjgen models with damping, springs, tendons, "
-    "every mjgen actuator kind plus damper, cylinder, intvelocity, muscle, DC-motor and PID actuators, inertia-box and ellipsoid fluid forces, all four integrator settings (under implicitfast, which symmetrizes the fluid blocks by design, the symmetric parts are compared); mjd_transitionFD forward vs centred (5e-5 scaled, smooth models only), mjd_transitionFD centred vs own centred differences of mj_step (1e-5 scaled), "
+    "every mjgen actuator kind plus damper, cylinder, intvelocity, muscle, DC-motor and PID actuators, inertia-box and ellipsoid fluid forces, all four integrator settings (under implicitfast, which symmetrizes the fluid blocks by design, the symmetric parts are compared); mjd_transitionFD forward vs centred to differencing accuracy on smooth models (a scaled gap above 5e-5 is re-examined with forward differences at eps/4 and must shrink by more than 2x, truncation error shrinking 4x, unless below the roundoff floor 1e-7; the same rule for forward D vs own centred differences and for the forward-only mjd_inverseFD with cheap threshold 1e-4), mjd_transitionFD centred vs own centred differences of mj_step (1e-5 scaled), "
     "the sensor Jacobians C (centred) and D (forward and centred) vs own centred differences of mj_step + sensordata (actuatorfrc / jointactuatorfrc sensors on every actuator; 1e-5 scaled), the D entry of a one-actuator model with the control inside / exactly at / within eps of / outside ctrlrange and ranges narrower than eps against the documented one-sided behaviour, the static clampedDiff on random vectors for the four pointer patterns; "
     "mjd_inverseFD DfDv/DfDa vs own centred differences of mj_inverse (1e-4 scaled); input state before/after mjd_transitionFD and mjd_inverseFD by mj_getState(mjSTATE_INTEGRATION) memcmp plus mjcmp.h field comparison (no state field may differ; qacc for inverseFD). "
     "Not covered by any theorem: mjd_rne_vel, fluid and muscle derivatives, DC-motor / SO3 / PID terms, flex, polynomial tendon damping. "
@@ -106,6 +106,37 @@ def fl(x):
     return F.fhex(x) + "%float"
 
 
+FWD_THR = 5e-5      # cheap threshold (scaled) above which a forward-vs-centred pair goes to the refinement step
+FWD_FLOOR = 1e-7    # roundoff floor (scaled) of a forward difference with eps/4 = 2.5e-7
+
+
+def forward_gap(x0, x1, xq, thr, refine):
+    """forward differences x0 (eps) against centred x1, with the forward differences xq at eps/4 for refinement.
+    A gap that is truncation error is O(eps): it shrinks about 4x at eps/4; a missing or wrong term does not shrink.
+    Returns (worst scaled gap, failing index or None, scaled gap there, scaled refined gap there)."""
+    n = min(len(x0), len(x1))
+    sc = 1.0 + max([abs(x) for x in x0[:n] if x == x] + [abs(x) for x in x1[:n] if x == x] + [0.0])
+    worst, fail = 0.0, None
+    for i in range(n):
+        a, b = x0[i], x1[i]
+        if a != a or b != b:
+            continue
+        gap = abs(a - b) / sc
+        worst = max(worst, gap)
+        if gap > thr:
+            refine["pairs_refined"] += 1
+            if xq is None or i >= len(xq) or xq[i] != xq[i]:
+                if fail is None:
+                    fail = (i, gap, None)
+                continue
+            gap4 = abs(xq[i] - b) / sc
+            ratio = gap4 / gap
+            refine["worst_shrink_ratio"] = max(refine["worst_shrink_ratio"], ratio)
+            if ratio > 0.5 and gap4 > FWD_FLOOR and (fail is None or gap > fail[1]):
+                fail = (i, gap, gap4)
+    return worst, fail
+
+
 def flit(xs):
     return F.flist(xs) if xs else "(@nil float)"
 
@@ -156,6 +187,11 @@ def run(ctx):
     for _ in range(10 if quick else 150):
         lo = rng.uniform(-2, 1); hi = lo + rng.choice([rng.uniform(0.1, 2), 1.5e-6, 0.7e-6])
         ecases.append((rng.randrange(2), rng.randrange(2), rng.choice([lo, hi, rng.uniform(lo - 0.2, hi + 0.2), lo + rng.uniform(0, 2e-6), hi - rng.uniform(0, 2e-6)]), rng.choice([1e-6, 1e-5]), lo, hi))
+    # --replay: the case of a stored violation is added to the corpus of this run
+    rc_ = getattr(ctx, "replay", None)
+    if rc_ and isinstance(rc_.get("case"), dict) and all(k in rc_["case"] for k in ("seed", "feat", "nbody", "nrep", "xflags", "integrator")):
+        c_ = tuple(int(rc_["case"][k]) for k in ("seed", "feat", "nbody", "nrep", "xflags", "integrator"))
+        (scases if rc_["case"].get("op") == "mjd_smooth_vel" else tcases).append(c_)
     reqs = (["S %d %d %d %d %d %d" % c for c in scases] + ["T %d %d %d %d %d %d" % c for c in tcases] +
             ["CD %d %d %s %d %s %s %s" % (fp, fm, hx(h), len(x), " ".join(map(hx, x)), " ".join(map(hx, xp)), " ".join(map(hx, xm))) for (fp, fm, h, x, xp, xm) in cdcases] +
             ["E %d %d %s %s %s %s" % (l, ce, hx(c), hx(e), hx(lo), hx(hi)) for (l, ce, c, e, lo, hi) in ecases])
@@ -169,6 +205,7 @@ def run(ctx):
              "reps_with_fluid": 0, "reps_with_ctrl_out_of_range": 0, "reps_linear_model": 0, "trans_models": 0, "trans_reps": 0, "trans_bad_reps": 0,
              "fwd_vs_centred_checked": 0, "centred_vs_own_checked": 0, "inverse_checked": 0, "restore_checks": 0,
              "sensor_jacobians_checked": 0, "worst_sensor_jac": 0.0, "clampeddiff_cases": 0, "edge_cases": 0, "edge_cases_one_sided": 0, "edge_cases_no_nudge": 0, "reps_saturated_actuator": 0, "F1_reps": 0, "F2_reps": 0, "F3_reps": 0, "F4_reps": 0, "worst_qderiv_err": 0.0, "worst_fwd_centred": 0.0, "worst_centred_own": 0.0, "worst_inverse": 0.0}
+    refine = {"pairs_refined": 0, "worst_shrink_ratio": 0.0}     # forward-vs-centred entries sent to the eps/4 refinement step
     gain_kinds = set()
     distinct = set()
     samples = []
@@ -319,7 +356,7 @@ def run(ctx):
                         ctx.violation("impl_violation", dict(rcase, op=d["fn"], centred=d["centred"]), expected="input state unchanged (mj_getState(mjSTATE_INTEGRATION) bitwise, no state field in the mjData comparison%s)" % (", qacc" if d["fn"] == "inverseFD" else ""),
                                       observed={"statevec_equal": d.get("statevec_equal"), "state_fields_differing": fields, "qacc_equal": d.get("qacc_equal")},
                                       theorem="C25_fd_restores" if d["fn"] == "transitionFD" else "C25_fd_restores_inverse_partial", signature={"site": "mjd_" + d["fn"], "class": "state-not-restored"})
-                elif t[0] in ("A0", "A1", "AO", "B0", "B1", "C0", "C1", "CO", "D0", "D1", "DO", "IFV", "IFVO", "IFA", "IFAO"):
+                elif t[0] in ("A0", "A1", "AO", "B0", "B1", "C0", "C1", "CO", "D0", "D1", "DO", "IFV", "IFVO", "IFA", "IFAO", "A0Q", "B0Q", "C0Q", "D0Q", "IFVQ", "IFAQ"):
                     M[t[0]] = [unhx(x) for x in t[2:]]
                 elif t[0] == "BO":
                     M["BO"] = [unhx(x) for x in t[3:]]
@@ -330,17 +367,20 @@ def run(ctx):
             # forward vs centred (differencing accuracy), smooth models
             if smooth:
                 stats["fwd_vs_centred_checked"] += 1
-                pairs = [("A", M["A0"], M["A1"]), ("C", M.get("C0", []), M.get("C1", []))]
+                pairs = [("A", M["A0"], M["A1"], M.get("A0Q")), ("C", M.get("C0", []), M.get("C1", []), M.get("C0Q"))]
                 if "B0" in M and "BO" in M:
                     # columns whose control sits at a range limit are differenced one-sided by design: use only the others
                     ok = [i for i in range(len(M["BO"])) if M["BO"][i] == M["BO"][i]]
-                    pairs.append(("B", [M["B0"][i] for i in ok], [M["B1"][i] for i in ok]))
-                for nm, x0, x1 in pairs:
-                    e, wi, sc = scaled_diff(x0, x1)
+                    pairs.append(("B", [M["B0"][i] for i in ok], [M["B1"][i] for i in ok], [M["B0Q"][i] for i in ok] if "B0Q" in M else None))
+                for nm, x0, x1, xq in pairs:
+                    e, fail = forward_gap(x0, x1, xq, FWD_THR, refine)
                     stats["worst_fwd_centred"] = max(stats["worst_fwd_centred"], e)
-                    if e > 5e-5:
-                        ctx.violation("impl_violation", dict(rcase, op="mjd_transitionFD", matrix=nm, index=wi, forward=x0[wi], centred=x1[wi]), expected="forward and centred differences agree to differencing accuracy (5e-5 scaled)",
-                                      observed="scaled difference %.3g" % e, theorem="C25 oracle (forward vs centred)", signature={"site": "mjd_transitionFD", "class": "forward-vs-centred", "matrix": nm})
+                    if fail is not None:
+                        wi, gap, gap4 = fail
+                        ctx.violation("impl_violation", dict(rcase, op="mjd_transitionFD", matrix=nm, index=wi, forward=x0[wi], centred=x1[wi], forward_quarter_eps=(xq[wi] if xq else None)),
+                                      expected="forward and centred differences agree to differencing accuracy: a gap above %g (scaled) must shrink about 4x when eps is divided by 4" % FWD_THR,
+                                      observed="scaled gap %.3g at eps, %s at eps/4" % (gap, ("%.3g" % gap4) if gap4 is not None else "not available"),
+                                      theorem="C25 oracle (forward vs centred)", signature={"site": "mjd_transitionFD", "class": "forward-vs-centred", "matrix": nm})
             # centred vs own centred differences of mj_step
             stats["centred_vs_own_checked"] += 1
             f4 = False
@@ -372,7 +412,18 @@ def run(ctx):
                 stats["F4_reps"] += 1
             # sensor Jacobians: C (centred) and D (forward and centred) against own centred differences of mj_step + sensordata;
             # D columns whose control cannot be nudged both ways are one-sided by design (covered by the E cases): skipped here
-            for nm, a, b, tol in (("C", "C1", "CO", 1e-5), ("D", "D1", "DO", 1e-5), ("D", "D0", "DO", 5e-5 if smooth else None)):
+            if smooth and "D0" in M and "DO" in M:
+                # forward D against own centred differences: same differencing-accuracy rule (refinement with eps/4)
+                stats["sensor_jacobians_checked"] += 1
+                e, fail = forward_gap(M["D0"], M["DO"], M.get("D0Q"), FWD_THR, refine)
+                stats["worst_sensor_jac"] = max(stats["worst_sensor_jac"], e if fail is not None else 0.0)
+                if fail is not None:
+                    wi, gap, gap4 = fail
+                    ctx.violation("impl_violation", dict(rcase, op="mjd_transitionFD", matrix="D", centred=0, index=wi, transitionFD=M["D0"][wi], direct=M["DO"][wi]),
+                                  expected="D (flg_centered=0) equals centred differences of mj_step + sensordata to differencing accuracy (gap above %g must shrink about 4x at eps/4)" % FWD_THR,
+                                  observed="scaled gap %.3g at eps, %s at eps/4" % (gap, ("%.3g" % gap4) if gap4 is not None else "not available"),
+                                  theorem="C25_clamped_diff", signature={"site": "mjd_transitionFD", "class": "sensor-jacobian-vs-direct-perturbation", "matrix": "D", "centred": 0})
+            for nm, a, b, tol in (("C", "C1", "CO", 1e-5), ("D", "D1", "DO", 1e-5)):
                 if a in M and b in M and tol is not None:
                     stats["sensor_jacobians_checked"] += 1
                     e, wi, _ = scaled_diff(M[a], M[b])
@@ -385,11 +436,15 @@ def run(ctx):
             for nm, a, b in (("DfDv", "IFV", "IFVO"), ("DfDa", "IFA", "IFAO")):
                 if a in M and b in M:
                     stats["inverse_checked"] += 1
-                    e, wi, _ = scaled_diff(M[a], M[b])
+                    # mjd_inverseFD differences forward only: differencing-accuracy rule with the eps/4 refinement
+                    e, fail = forward_gap(M[a], M[b], M.get(a + "Q"), 1e-4, refine)
                     stats["worst_inverse"] = max(stats["worst_inverse"], e)
-                    if e > 1e-4:
-                        ctx.violation("impl_violation", dict(rcase, op="mjd_inverseFD", matrix=nm, index=wi, inverseFD=M[a][wi], direct=M[b][wi]), expected="%s equals centred differences of mj_inverse (1e-4 scaled)" % nm,
-                                      observed="scaled difference %.3g" % e, theorem="C25 oracle (inverseFD vs mj_inverse)", signature={"site": "mjd_inverseFD", "class": "vs-direct-perturbation", "matrix": nm})
+                    if fail is not None:
+                        wi, gap, gap4 = fail
+                        ctx.violation("impl_violation", dict(rcase, op="mjd_inverseFD", matrix=nm, index=wi, inverseFD=M[a][wi], direct=M[b][wi]),
+                                      expected="%s equals centred differences of mj_inverse to differencing accuracy (gap above 1e-4 scaled must shrink about 4x at eps/4)" % nm,
+                                      observed="scaled gap %.3g at eps, %s at eps/4" % (gap, ("%.3g" % gap4) if gap4 is not None else "not available"),
+                                      theorem="C25 oracle (inverseFD vs mj_inverse)", signature={"site": "mjd_inverseFD", "class": "vs-direct-perturbation", "matrix": nm})
             if len(samples) < 4 and ndx <= 8:
                 samples.append(dict(rcase, op="mjd_transitionFD", ndx=ndx, A_centred=M["A1"], A_direct=M["AO"]))
 
@@ -472,7 +527,7 @@ def run(ctx):
     ctx.cov["rule"] = ("fixed corpus (replays of recorded findings) + generated mjgen models with extra actuators (damper, cylinder, intvelocity, muscle, DC motor, PID), fluid (inertia-box + ellipsoid), all integrators; per model 2-3 random states "
                        "(controls partly outside their ranges). A case is (model, state); non-trivial when the finite-difference derivative has a non-zero entry (S cases) or the transition matrices were produced (T cases); distinct by request and repetition")
     ctx.cov["samples"] = samples[:4] or [{"requests": reqs[:3]}]
-    ctx.cov["support"].update({"stats": stats, "actuator_gain:bias:dyn_kinds_seen": sorted(gain_kinds), "linear_model_cases_in_coq": len(coq_sel)})
+    ctx.cov["support"].update({"forward_difference_refinement": dict(refine, cheap_threshold_scaled=FWD_THR, roundoff_floor_scaled=FWD_FLOOR, rule="alarm iff gap(eps/4) > 0.5*gap(eps) and gap(eps/4) > floor"), "stats": stats, "actuator_gain:bias:dyn_kinds_seen": sorted(gain_kinds), "linear_model_cases_in_coq": len(coq_sel)})
     ctx.cov["explanation"] = ("qDeriv compared with finite differences on %d states of %d models (%d entries, %d non-zero), mjd_transitionFD / mjd_inverseFD on %d states of %d models, %d before/after state comparisons; "
                               "linear-terms model tied on %d states" % (stats["smooth_reps"] - stats["smooth_bad_reps"], stats["smooth_models"], stats["qderiv_entries"], stats["qderiv_nonzero_entries"],
                                                                         stats["trans_reps"] - stats["trans_bad_reps"], stats["trans_models"], stats["restore_checks"], len(coq_sel)))
